@@ -112,6 +112,15 @@ CHECKS = {
         "Leading/trailing texts and blocks come from the harness vocabulary.",
         "DESIGN.md section 4 C20",
     ),
+    "C13": (
+        "seeded Hypothesis generation of configurations (round trip) and of witness descriptions per setting (three-channel differential + conflicts)",
+        "Every assignment of the 16 settings is rendered to text in varying syntax, to a dict and to a Config object and must read back "
+        "attribute-for-attribute and decompile idempotently; unknown names must raise ValueError; for every setting and both object types "
+        "a witness description on which the setting bites is evaluated through config-at-creation, config assignment and keyword channels, "
+        "which must agree, and in conflicts keyword beats config beats MasterConfig.",
+        "Witness templates are fixed per setting with generated numbers/aliquots; a setting that bites through no channel on a witness is reported as a harness error, not a violation.",
+        "DESIGN.md section 4 C13",
+    ),
 }
 
 NOT_BUILT = {}
